@@ -28,11 +28,11 @@ PROFILES = {
     "C08": dict(world={"seg": True, "feats": "any"}, w={"paint": 8, "enable": 0.6, "disable": 0.3}, steps=(8, 40), motif=0.4, motifs=["toggle", "toggle", "fold"]),
     "C09": dict(world={"seg": True, "feats": "iou"}, w={"paint": 7, "add_edge": 5, "enable": 0.6, "disable": 0.4}, steps=(8, 40), iou_toggle=True, motif=0.4, motifs=["toggle", "toggle", "fold"]),
     "C10": dict(world={}, w={"enable": 4, "disable": 3, "update_attrs": 3, "query": 0.3}, steps=(10, 50), toggle_ids=True, motif=0.4, motifs=["toggle", "toggle", "fold"]),
-    "C11": dict(world={}, w={"add_edge": 6, "add_node": 5, "paint": 5, "swap": 2, "update_attrs": 2, "enable": 0.05, "disable": 0.02}, steps=(10, 60), f1=(0.4,), trap=True),
+    "C11": dict(world={}, w={"add_edge": 6, "add_node": 5, "paint": 5, "swap": 2, "update_attrs": 2, "enable": 0.05, "disable": 0.02}, steps=(10, 60), f1=(0.4,), trap=True, werror=True),
     "C14": dict(world={"p_big": 0.03}, w={"reimport": 2.5, "restart": 0.8, "save": 0.8, "enable": 0.15, "disable": 0.15}, steps=(4, 25), io=True, explicit_tracks=True),
     "C15": dict(world={"p_big": 0.08}, w={"export": 3, "enable": 0.1, "disable": 0.0}, steps=(4, 25), io=True, subset=1.0, explicit_tracks=True),
     "C16": dict(world={"p_big": 0.03}, w={"query": 3, "export": 2, "save": 1, "enable": 0.1, "disable": 0.0}, steps=(4, 30), io=True),
-    "C20": dict(world={}, w={"primitive": 1, "query": 0.5, "enable": 0.2, "disable": 0.1}, steps=(10, 60), f1=(0.1, 0.4), subs=True),
+    "C20": dict(world={}, w={"primitive": 1, "query": 0.5, "enable": 0.2, "disable": 0.1}, steps=(10, 60), f1=(0.1, 0.4), subs=True, werror=True),
 }
 
 PRIMS = ["AddNode", "DeleteNode", "AddEdge", "DeleteEdge", "UpdateNodeSeg", "UpdateTrackIDs", "UpdateNodeAttrs"]
@@ -61,7 +61,7 @@ def swarm(rng: random.Random, prop: str, tier: str) -> dict:
         "f1": rng.choice(p.get("f1", (0.0, 0.1, 0.1, 0.4))),
         "force": rng.choice([0.1, 0.5, 0.9]),
         "reinvert": p.get("reinvert", 0.0),
-        "flags": {k: True for k in ("bursty", "wild_edges", "division_bias", "explicit_tracks", "iou_toggle", "toggle_ids", "trap", "io", "subs", "nopix", "nopix_rare") if p.get(k)},
+        "flags": {k: True for k in ("bursty", "wild_edges", "division_bias", "explicit_tracks", "iou_toggle", "toggle_ids", "trap", "io", "subs", "nopix", "nopix_rare", "werror") if p.get(k)},
         "subset": p.get("subset", 0.5),
         "f2": rng.choice([0.0, 0.0, 0.6]) if p.get("io") else 0.0,
         "sweep": 0.15 if (prop in ("C14", "C16") and tier == "thorough") else 0.0,
@@ -189,6 +189,8 @@ def gen_op(rng: random.Random, cfg: dict, kind: str | None = None) -> dict:
             op["invalid"] = "two_frames"
     elif kind in ("undo", "redo"):
         pass
+    if fl.get("werror") and kind in EDITS and rng.random() < 0.12:
+        op["werror"] = True
     elif kind in ("enable", "disable"):
         n = rng.randint(1, 3)
         op.update(keys=[rng.randrange(16) for _ in range(n)], unknown=inval or (fl.get("toggle_ids") and rng.random() < 0.15),
